@@ -34,6 +34,7 @@ class Env:
         self.want_pd = pd
         self.choice = choice        # list of symbolic ints for np.random.choice
         self._saved = []
+        self._restore = []
         self.fs = None
         self.tmp = None
         self.rnd = None
@@ -72,6 +73,9 @@ class Env:
             else:
                 setattr(mod, name, val)
         self._saved = []
+        for hook in reversed(self._restore):
+            hook()
+        self._restore = []
         if self.tmp:
             _real_shutil.rmtree(self.tmp, ignore_errors=True)
         return False
@@ -107,7 +111,24 @@ class Env:
     def _install_xr(self, cr, ca, cp, fm, mg):
         from .stubs import minixr
 
+        if self.fs is None:
+            self._install_fs(cp, fm, mg)
         minixr.install(self, cr, ca, cp, fm, mg)
+
+    def swap_module(self, name, stub):
+        """serve function-local `import <name>` from a stub for the duration of the Env"""
+        import sys
+
+        old = sys.modules.get(name)
+        sys.modules[name] = stub
+
+        def undo():
+            if old is None:
+                sys.modules.pop(name, None)
+            else:
+                sys.modules[name] = old
+
+        self._restore.append(undo)
 
     # ------------------------------------------------------------------
     # helpers usable from harness bodies in both modes
